@@ -699,6 +699,13 @@ def r5_dirs(ctx, rep):
         for sub in py.subclasses(cls):
             if sub.startswith("External"):
                 continue
+            constructed = any(isinstance(c.func, ast.Name) and c.func.id == sub
+                              for t in py.modules.values() for c in ast.walk(t) if isinstance(c, ast.Call))
+            if not constructed:
+                continue   # abstract base, never instantiated
+            owner, gfn = py.resolve_method(sub, "get_dir")
+            if owner != "FortranBase" and "super().get_dir()" not in ast.unparse(gfn):
+                continue   # full override: judged through its literal return values below
             obj = obj_value(py, sub)
             if obj is None:
                 continue
@@ -753,6 +760,8 @@ def obj_value(py, cls: str) -> Optional[str]:
             continue
         if "obj" in ci.class_attrs:
             return py.eval_str(ci.class_attrs["obj"])
+        if c == "FortranBase":
+            break   # FortranBase.__init__ derives obj from the class name (handled below)
         init = ci.methods.get("__init__")
         if init:
             for n in ast.walk(init):
